@@ -372,11 +372,13 @@ fn main() {
     let plain_cfg = Cfg::plain();
     for c in 0..n_rand {
         let shape = match r.below(10) { 0..=5 => Shape::Any, 6..=7 => Shape::Forest, _ => Shape::Dag };
-        let np = r.range(1, 5);
+        // 1-5 properties; one model in 60 has 65-71 of them (bit sets over property indices must not wrap at a machine word)
+        let np = if c % 60 == 59 { 65 + r.below(7) } else { r.range(1, 5) };
+        if np > 64 { out.stat("models-with-more-than-64-properties"); }
         let g = gen_graph(&mut r, 12, shape, np);
         for f in g.features() { out.stat(&format!("graph-{}", f)); }
         out.stat(match shape { Shape::Any => "shape-any", Shape::Forest => "shape-forest", Shape::Dag => "shape-dag" });
-        out.stat(&format!("props-{}", np));
+        out.stat(&format!("props-{}", np.min(65)));
         // plain configuration on all three strategies
         for strat in strategies {
             case(&mut out, &g, strat, &Cfg::plain(), &prop, true);
@@ -413,7 +415,9 @@ fn main() {
             let scfg = Cfg {
                 max_depth: if r.chance(1, 3) { Some(r.range(1, 6)) } else { None },
                 target: Some(r.range(1, 12)),
-                finish: match r.below(5) { 0 => "any".into(), 1 => "anyf".into(), 2 => "allf".into(), _ => "all".into() },
+                finish: match r.below(7) { 0 => "any".into(), 1 => "anyf".into(), 2 => "allf".into(),
+                    3 => format!("(allof {} {})", r.below(np), r.below(np + 1)), 4 => format!("(anyof {} {})", r.below(np), r.below(np + 1)),
+                    _ => "all".into() },
             };
             let obs = observe_sim(&gs, &scfg, &script);
             let (gsx, psx, csx) = (gs.graph_sx(), gs.props_sx(), scfg.sx());
